@@ -79,7 +79,7 @@ var FaultKinds = []string{
 	"omit-param-TYPE", "omit-param-ENUM", "omit-param-MACRO", "omit-param-PASTE", "omit-param-TAG", "omit-param-Tags", "omit-param-Protocol",
 	"omit-param-Method", "omit-param-JSIGHT", "omit-param-BaseUrl", "omit-param-SERVER", "omit-param-Title", "omit-param-Version", "omit-param-URL",
 	"undefined-type-shortcut", "undefined-type-array", "undefined-type-rule", "undefined-type-allOf", "undefined-type-param", "undefined-type-or",
-	"undefined-enum", "undefined-macro", "undefined-tag", "undefined-tag-like-auto",
+	"undefined-enum", "undefined-macro", "undefined-tag", "undefined-tag-like-auto", "undefined-tag-second-Tags", "similar-path-leading-param",
 }
 
 // InjectFault puts exactly one fault of a drawn kind into a copy of the valid
@@ -163,6 +163,14 @@ func InjectFault(t *rapid.T, doc0 *Doc) (*Doc, Fault, bool) {
 		case "PASTE":
 			add("omit-param-PASTE", func() []int { d.Params = nil; return []int{d.ID} })
 		case "Tags":
+			if parent != nil && (IsVerb(parent.Kw) || parent.Kw == "Method") {
+				add("undefined-tag-second-Tags", func() []int {
+					td := &Dir{ID: f.id(), Kw: "Tags", Params: []string{"@undefinedTag"}}
+					lst, i := doc.listOf(d)
+					*lst = insertAfter(*lst, i, td)
+					return []int{td.ID}
+				})
+			}
 			add("omit-param-Tags", func() []int { d.Params = nil; return []int{d.ID} })
 			add("undefined-tag", func() []int { d.Params = append(d.Params, "@undefinedTag"); return []int{d.ID} })
 		case "Protocol", "Method", "JSIGHT", "BaseUrl", "Title", "Version":
@@ -311,6 +319,13 @@ func InjectFault(t *rapid.T, doc0 *Doc) (*Doc, Fault, bool) {
 				inObj(s.Obj)
 			}
 		}
+	})
+	// two new methods whose paths differ only in the name of a leading parameter
+	add("similar-path-leading-param", func() []int {
+		a := &Dir{ID: f.id(), Kw: "GET", Params: []string{"/{zztenant}/zzcats"}, Children: []*Dir{{ID: f.id(), Kw: "200", Schema: &Schema{Notation: "any", AsParam: true}}}}
+		b := &Dir{ID: f.id(), Kw: "GET", Params: []string{"/{zzorg}/zzdogs"}, Children: []*Dir{{ID: f.id(), Kw: "200", Schema: &Schema{Notation: "any", AsParam: true}}}}
+		doc.Top = append(doc.Top, a, b)
+		return []int{a.ID, b.ID}
 	})
 	// top-level undefined macro
 	add("undefined-macro", func() []int {
